@@ -72,11 +72,16 @@ func genValue(r *rand.Rand, depth int) any {
 	return "leaf"
 }
 
-var labelKeys = []string{"team", "env", "example.org/tier", "acme.io/owner"}
+// the last three are NOT reserved: their prefix merely ends in the letters of a reserved domain
+// (no dot boundary), or they have no prefix at all
+var labelKeys = []string{"team", "env", "example.org/tier", "acme.io/owner", "cluster.x-k8s.io/cluster-name", "notkubernetes.io/tier", "myk8s.io"}
 var reservedKeys = []string{"kubernetes.io/role", "app.kubernetes.io/name", "k8s.io/thing", "foo.k8s.io/bar", "kubectl.kubernetes.io/last-applied-configuration"}
 
 func isReserved(k string) bool {
-	d := strings.SplitN(k, "/", 2)[0]
+	d, _, prefixed := strings.Cut(k, "/")
+	if !prefixed {
+		return false // a key without prefix is private to the user
+	}
 	return d == "kubernetes.io" || strings.HasSuffix(d, ".kubernetes.io") || d == "k8s.io" || strings.HasSuffix(d, ".k8s.io")
 }
 
@@ -648,7 +653,7 @@ func runCase(c *kit.Ctx, i int, name string) {
 
 func main() {
 	c := kit.New("C07", "exploration")
-	c.Rule = "generated claims (nested user fields whose keys collide with machinery names at deeper levels, every subset of claim machinery fields with valid values, Manual/Automatic/unset policy, reserved and unreserved label/annotation keys, external name) and XR pre-states (resourceRefs, own connection secret ref, external name, composition refs, status with user fields, private conditions, connectionDetails) synced twice (first sync, then re-sync after a user edit and an XR status change) by the production-wired claim reconciler for both syncers; stored XR and claim compared field by field with the partition from the property statement. Top-level user spec fields never use a machinery name (quantifier: collisions only at other nesting levels); label domains that merely end in kubernetes.io without a dot boundary are not generated. distinct = generated case; non-trivial = >=1 nested user field and >=1 machinery field on the claim."
+	c.Rule = "generated claims (nested user fields whose keys collide with machinery names at deeper levels, every subset of claim machinery fields with valid values, Manual/Automatic/unset policy, reserved and unreserved label/annotation keys, external name) and XR pre-states (resourceRefs, own connection secret ref, external name, composition refs, status with user fields, private conditions, connectionDetails) synced twice (first sync, then re-sync after a user edit and an XR status change) by the production-wired claim reconciler for both syncers; stored XR and claim compared field by field with the partition from the property statement. Top-level user spec fields never use a machinery name (quantifier: collisions only at other nesting levels); label keys include prefixes that merely end in the letters of a reserved domain (cluster.x-k8s.io, notkubernetes.io) and an unprefixed key ending in k8s.io: not reserved, must propagate. distinct = generated case; non-trivial = >=1 nested user field and >=1 machinery field on the claim."
 	c.Rule += " " + "A fourth sync reads the XR through a stale cache: XR-owned fields keep the XR controller's latest values."
 	c.Rule += " " + "A fifth sync after another writer set the claim-owned field on the XR."
 	c.Assumptions = []string{"the XRD schema preserves unknown fields, so no pruning is needed for the generated claims", "sim implements SSA via the k8s managedfields library"}
